@@ -65,9 +65,9 @@ CHECKS.update({
                 design='6/C13', technique='Coq refutation + partial theorems; kill injection at every storage-effect boundary', note=CACHE_NOTE),
 })
 CHECKS['C20'] = dict(
-    text='Proved for every list of task trees: the structure has exactly one class block per task type reachable through parameters at any depth (C20_types), an arrow (A,p,B) exactly when some reachable task of type A holds a B task inside parameter p, once per block, flagged "many" exactly when in some such task p is not itself a task (C20_arrows_and_many); the work list is exactly the reachable tasks; determinism is by construction. The rendering to Mermaid text (format_type, field listing, run signature) is not modelled: the monitor parses the real diagram text back and checks blocks, parameters, run lines and arrows.',
-    design='6/C20', technique='Coq proof over worklist traversal and association-list updates + differential correspondence of TaskStructure.build',
-    note='Theorems are about Model/Diagram.v over Model/Values.v task trees. Tie: correspondence of TaskStructure.build (dict contents and insertion order) with Diagram.build on generated graphs; text rendering checked by parsing. Print Assumptions: closed.')
+    text='Proved for every list of task trees: the structure has exactly one class block per task type reachable through parameters at any depth (C20_types), an arrow (A,p,B) exactly when some reachable task of type A holds a B task inside parameter p, once per block, flagged "many" exactly when in some such task p is not itself a task (C20_arrows_and_many); the work list is exactly the reachable tasks; determinism is by construction. The rendering to Mermaid text is modelled too (Model/DiagramText.v: header, direction, one block per type with its parameter and run lines, arrow groups, blank-line joins and indentation) and compared line by line with the string build_task_diagram returns; proved end to end (C20_text): the class lines of the text are the reachable types, each once; every block carries its run line and one line per parameter; the arrow lines are one to one the (dependent type, parameter, dependency type) combinations, each once, with the structure\'s many flag. How a type hint is spelt (format_type of a hint, the class __name__) is an input taken from labtech/typing. A monitor additionally parses the real text back.',
+    design='6/C20', technique='Coq proof over worklist traversal, association-list updates and the rendered lines + differential correspondence of TaskStructure.build and of the diagram text',
+    note='Theorems are about Model/Diagram.v over Model/Values.v task trees. Tie: correspondence of TaskStructure.build (dict contents and insertion order) with Diagram.build on generated graphs, and of the returned text with DiagramText.render line by line (four directions). Print Assumptions: closed.')
 CHECKS['C16'] = dict(
     text='Configuration theorems: with the Process constructor and the filter_context call sites read from the current source, every backend runs tasks where it promises whatever the platform default start method (C16_start_method; refuted for the module-level constructor: C16_module_default_refuted), run() sees the task\'s own filter_context of the Lab context under every backend (C16_context), and key/stored entry do not take the context (C16_context_not_in_key). PARTIAL by nature: that a forked child inherits the caller\'s memory and a spawned interpreter shares none is multiprocessing/OS behaviour; the check samples it on real runs (execution records: pid, parent pid, thread, a module global mutated by the parent after import, context seen) over backends x worker counts x context filters and compares keys/stored metadata across contexts and backends.',
     design='6/C16', technique='Coq configuration theorems over extracted call sites + execution-record sampling on real backends',
